@@ -1158,6 +1158,20 @@ struct DataSpec {
 }
 
 fn data_contents(i: usize) -> Vec<u8> {
+    // texts that end right at / next to the 512-octet window of the canonicalising reader, so that
+    // extending or truncating them by one line-ending octet moves across the window edge
+    if i >= 100 {
+        let (len, tail): (usize, &[u8]) = match i {
+            100 => (511, b"z"),
+            101 => (512, b"\r"),
+            102 => (1023, b"z"),
+            _ => (1024, b"\r\n"),
+        };
+        let mut d: Vec<u8> = (0..len).map(|k| if k % 61 == 60 { b'\n' } else { b'a' + (k % 23) as u8 }).collect();
+        let l = d.len();
+        d[l - tail.len()..].copy_from_slice(tail);
+        return d;
+    }
     let v: [&[u8]; 4] = [
         b"Hello, world. \x00\xff\x80 binary\n",
         b"line one\r\nline two\nlast line without eol",
@@ -2100,8 +2114,10 @@ fn build_cert(ctx: &mut Ctx, spec: &Spec, kidx: u64, secret: bool, enrich: bool,
     let prim = key.primary_key.public_key().clone();
     if enrich {
         if let Some(j) = sign_sub_index(&key) {
+            // a refreshed binding next to the original one: both carry a back signature, one of them is
+            // not the latest
             let s = remake_sign_binding(rng, &key, j)?;
-            key.secret_subkeys[j].signatures = vec![s];
+            key.secret_subkeys[j].signatures.push(s);
         }
         if let Some(j) = enc_sub_index(&key) {
             let s = cfg_for(rng, &key.primary_key, SignatureType::SubkeyRevocation, vec![])?
@@ -2407,9 +2423,13 @@ fn data_objects(quick: bool) -> Vec<DataSpec> {
         d(true, Alg::Ed25519, false, Sha3_256, SpMode::Bare, 3),
         d(false, Alg::Rsa2048, false, Sha224, SpMode::Default, 0),
         d(false, Alg::Ed25519Legacy, true, Sha384, SpMode::Bare, 2),
+        d(false, Alg::Ed25519Legacy, true, Sha256, SpMode::Default, 100),
+        d(true, Alg::Ed25519, true, Sha512, SpMode::Default, 101),
     ];
     if !quick {
         v.push(d(false, Alg::Ed448, false, Sha3_512, SpMode::Bare, 3));
+        v.push(d(true, Alg::Ed25519, true, Sha256, SpMode::Bare, 102));
+        v.push(d(false, Alg::Ed25519Legacy, true, Sha512, SpMode::Default, 103));
         let hashes = [Sha256, Sha384, Sha512, Sha224, Sha3_256, Sha3_512];
         let mut i = 0usize;
         for spec in zoo::signer_specs(true) {
